@@ -252,6 +252,8 @@ pub struct Report {
     pub exhaustive: Vec<String>,
     pub measurements: BTreeMap<String, Value>,
     pub max_violations: usize,
+    /// known findings (status = known) of this property: signature -> (id, hits, example)
+    pub known: Vec<(Value, String, u64, Option<Value>)>,
 }
 impl Report {
     pub fn new(property: &str) -> Report {
@@ -263,6 +265,7 @@ impl Report {
                 CONSTS.chunk, CONSTS.cbuf, CONSTS.block, CONSTS.fsbuf, CONSTS.rcache
             ),
             max_violations: 8,
+            known: load_known(property),
             ..Default::default()
         }
     }
@@ -290,6 +293,18 @@ impl Report {
     /// kind: "oracle" (the property's own statement fails on the implementation),
     /// "corr" (model and implementation disagree), "impl-crash"
     pub fn violation(&mut self, kind: &str, relation: &str, signature: Value, what: &str, case: Value) {
+        if kind != "corr" {
+            for k in self.known.iter_mut() {
+                let matches = k.0.as_object().map(|o| o.iter().all(|(a, b)| signature.get(a) == Some(b))).unwrap_or(false);
+                if matches {
+                    k.2 += 1;
+                    if k.3.is_none() {
+                        k.3 = Some(json!({"kind": kind, "relation": relation, "signature": signature, "what": what, "config": self.config, "case": case}));
+                    }
+                    return;
+                }
+            }
+        }
         if self.violations.len() < self.max_violations {
             self.violations.push(json!({
                 "kind": kind, "relation": relation, "signature": signature, "what": what,
@@ -311,8 +326,18 @@ impl Report {
             "traces_validated_against_impl": self.traces_validated,
             "notes": self.notes, "assumptions": self.assumptions,
             "exhaustive": self.exhaustive, "measurements": self.measurements,
+            "known_hits": self.known.iter().filter(|k| k.2 > 0).map(|k| json!({"id": k.1, "hits": k.2, "example": k.3})).collect::<Vec<_>>(),
         })
     }
+}
+
+fn load_known(property: &str) -> Vec<(Value, String, u64, Option<Value>)> {
+    let root = std::env::var("VERIF_ROOT").unwrap_or_else(|_| "/verif".to_string());
+    let Ok(txt) = std::fs::read_to_string(format!("{root}/known_findings.json")) else { return vec![] };
+    let Ok(v) = serde_json::from_str::<Value>(&txt) else { return vec![] };
+    v["findings"].as_array().map(|a| a.iter()
+        .filter(|f| f["property"] == property && f["status"] == "known")
+        .map(|f| (f["signature"].clone(), f["id"].as_str().unwrap_or("?").to_string(), 0u64, None)).collect()).unwrap_or_default()
 }
 
 pub struct Ctx {
